@@ -48,9 +48,13 @@ def showSpec (s : Spec) : String :=
 
 def textOf (b : Bytes) : String := String.ofList (b.map Char.ofNat)
 
-def showKv (kv : List (String × Bytes)) : String :=
-  let items := kv.map fun (k, v) =>
-    if k = "added_at" ∨ k = "seeded_for" then k ++ ":" ++ textOf v else k ++ ":" ++ hexB v
+def showVal : Val → String
+  | .raw b => hexB b
+  | .time sec frac => s!"T{sec}" ++ (if frac.isEmpty then "" else "." ++ String.ofList (frac.map fun d => Char.ofNat (48 + d)))
+  | .dur ns => s!"D{ns}"
+
+def showKv (kv : List (String × Val)) : String :=
+  let items := kv.map fun (k, v) => k ++ ":" ++ showVal v
   ",".intercalate (items.mergeSort fun a b => !(b < a))
 
 def step (op implObs : String) : String × List String × List String :=
